@@ -6,9 +6,40 @@ from vlib import common, plangen, riddle, solverlib
 from vlib.riddle import ev
 
 Z = Fraction(0)
-GEN = {"sv": plangen.gen_sv, "rr": plangen.gen_rr, "tl": plangen.gen_tl, "rules": plangen.gen_rules}
+import os
+import re
+
+from vlib import build
+
+
+def example_groups():
+    """the hand-written problems shipped with the repository, grouped as the pinned test-suite groups them"""
+    groups = []
+    cm = os.path.join(build.REPO, "solver", "tests", "CMakeLists.txt")
+    try:
+        txt = open(cm).read()
+    except OSError:
+        return groups
+    for m in re.finditer(r"add_test\(NAME (\S+) COMMAND solver_tests (.*?) WORKING_DIRECTORY", txt):
+        files = [f.strip('"').replace("${CMAKE_SOURCE_DIR}", build.REPO) for f in m.group(2).split() if f.endswith('.rddl"')]
+        if files and all(os.path.exists(f) for f in files):
+            groups.append((m.group(1), files))
+    return groups
+
+
+def gen_example(rnd, idx):
+    groups = example_groups()
+    if not groups:
+        return {"family": "examples", "id": "ex-none", "text": "real x;\n", "planted": False}
+    name, files = groups[idx % len(groups)]
+    texts = [open(f).read() for f in files]
+    return {"family": "examples", "id": "ex-" + name, "text": "\n".join(texts), "texts": texts, "planted": False, "example": name}
+
+
+GEN = {"sv": plangen.gen_sv, "rr": plangen.gen_rr, "tl": plangen.gen_tl, "rules": plangen.gen_rules, "examples": gen_example}
 # which families each property runs (the others' failures are counted, not reported)
-FAMILIES = {"C01": ["sv", "rr", "rules"], "C02": ["sv", "rr", "rules"], "C03": ["rules", "sv"], "C04": ["sv"], "C05": ["rr"], "C06": ["tl", "sv", "rr"]}
+FAMILIES = {"C01": ["sv", "rr", "rules"], "C02": ["sv", "rr", "rules"], "C03": ["rules", "sv", "examples"], "C04": ["sv", "examples"], "C05": ["rr", "examples"],
+            "C06": ["tl", "sv", "rr", "examples"]}
 
 
 def fr(v):
@@ -85,10 +116,18 @@ def atoms_by_instance(plan, type_pred):
     return groups, multi
 
 
+def tau_in(plan, a, ids):
+    t = plan.par(a, "tau")
+    if isinstance(t, frozenset):
+        return bool(t & ids)
+    return t in ids
+
+
 def check_c04(case, plan, out):
     fails = []
     sv_ids = {t["id"] for t in (out.timelines or []) if t.get("type") == "StateVariable"}
-    groups, multi = atoms_by_instance(plan, lambda a: "start" in {p["name"] for p in a["pars"]} and a["predicate"].startswith("SV"))
+    # state-variable atoms: generated classes are called SVn; for the shipped examples the instances are those the solver lists as StateVariable timelines
+    groups, multi = atoms_by_instance(plan, lambda a: "start" in {p["name"] for p in a["pars"]} and (a["predicate"].startswith("SV") or tau_in(plan, a, sv_ids)))
     pairs = 0
     for inst, atoms in groups.items():
         for i in range(len(atoms)):
@@ -323,7 +362,7 @@ def work(exes, family, start, n, owner):
     for i in range(n):
         case = GEN[family](rnd, start + i)
         variant = names[(start + i) % len(names)]
-        out = solverlib.run_probe(exes[variant], [case["text"]], timeout=30.0)
+        out = solverlib.run_probe(exes[variant], case.get("texts") or [case["text"]], timeout=30.0)
         fp = common.fingerprint(case["text"])
         st = out.status
         if st == "timeout":
@@ -389,4 +428,9 @@ def run_families(res, exes, tier, owner):
     total = 400 if tier == "quick" else 4000
     per = 10 if tier == "quick" else 25
     for fam in fams:
-        common.pmap(work, [(exes, fam, s, per, owner) for s in range(0, total, per)], res)
+        if fam == "examples":
+            ng = len(example_groups())
+            n = ng if tier == "quick" else ng * len(exes)      # thorough: every example in every configuration
+            common.pmap(work, [(exes, fam, s, 4, owner) for s in range(0, n, 4)], res)
+        else:
+            common.pmap(work, [(exes, fam, s, per, owner) for s in range(0, total, per)], res)
